@@ -14,6 +14,7 @@ import (
 	"os/exec"
 	"strings"
 	"sync"
+	"sync/atomic"
 	"time"
 )
 
@@ -45,6 +46,8 @@ type solver struct {
 	// stats
 	Queries, Sat, Unsat, Unknown int
 	CacheHits                    int
+	AltUsed                      int
+	alt                          *solver
 	Time                         time.Duration
 }
 
@@ -80,6 +83,7 @@ func (s *solver) close() {
 	if s == nil || s.cmd == nil {
 		return
 	}
+	s.alt.close()
 	s.in.Close()
 	s.cmd.Process.Kill()
 	s.cmd.Wait()
@@ -215,15 +219,19 @@ type cacheEntry struct {
 
 var queryCache sync.Map
 
+var CacheHitsTotal int64
+
 // queryBuilder renders terms with query-local numbering.
 type queryBuilder struct {
 	sb   strings.Builder
 	ids  map[*Term]int
+	byH  map[[2]uint64]int // structural sharing: identical sub-terms are emitted once
 	decl map[string]bool
+	n    int
 }
 
 func newQueryBuilder() *queryBuilder {
-	return &queryBuilder{ids: map[*Term]int{}, decl: map[string]bool{}}
+	return &queryBuilder{ids: map[*Term]int{}, byH: map[[2]uint64]int{}, decl: map[string]bool{}}
 }
 
 func (q *queryBuilder) declare(v *Term) {
@@ -284,7 +292,14 @@ func (q *queryBuilder) define(t *Term) {
 		if _, ok := q.ids[n]; ok {
 			continue
 		}
-		q.ids[n] = len(q.ids) + 1
+		h1, h2 := n.hash()
+		if id, ok := q.byH[[2]uint64{h1, h2}]; ok {
+			q.ids[n] = id
+			continue
+		}
+		q.n++
+		q.ids[n] = q.n
+		q.byH[[2]uint64{h1, h2}] = q.n
 		if n.op == OpUF {
 			fn := smtName(n.name)
 			key := fmt.Sprintf("%s/%d", fn, len(n.args))
@@ -343,7 +358,34 @@ func (s *solver) checkSliced(pc []pcEntry, extra []*Term) (checkResult, Model, m
 			}
 		}
 	}
-	// canonical script (local numbering) so that identical slices hit the cache
+	// structural fingerprint of the sliced query: identical slices hit the cache
+	// without rendering the script
+	var k1, k2 uint64 = 17, 31
+	for i, p := range pc {
+		if used[i] {
+			a, b := p.c.hash()
+			k1, k2 = mix(k1, a), mix(k2, b)
+		}
+	}
+	k1, k2 = mix(k1, 0xfeed), mix(k2, 0xbeef)
+	for _, e := range extra {
+		a, b := e.hash()
+		k1, k2 = mix(k1, a), mix(k2, b)
+	}
+	key := [2]uint64{k1, k2}
+	if c, ok := queryCache.Load(key); ok {
+		ce := c.(cacheEntry)
+		s.CacheHits++
+		atomic.AddInt64(&CacheHitsTotal, 1)
+		switch ce.res {
+		case resSat:
+			s.Sat++
+		case resUnsat:
+			s.Unsat++
+		}
+		return ce.res, ce.model, rel
+	}
+	// canonical script (local numbering)
 	qb := newQueryBuilder()
 	for i, p := range pc {
 		if used[i] {
@@ -361,26 +403,15 @@ func (s *solver) checkSliced(pc []pcEntry, extra []*Term) (checkResult, Model, m
 		}
 	}
 	script := qb.sb.String()
-	if c, ok := queryCache.Load(script); ok {
-		ce := c.(cacheEntry)
-		s.CacheHits++
-		switch ce.res {
-		case resSat:
-			s.Sat++
-		case resUnsat:
-			s.Unsat++
-		}
-		return ce.res, ce.model, rel
-	}
-	io.WriteString(s.in, "(reset)\n")
-	if s.kind == SolverCVC5 {
-		io.WriteString(s.in, "(set-logic ALL)\n")
-	}
-	io.WriteString(s.in, script)
 	tq := time.Now()
-	res, model := s.checkSatAndModel(vars)
+	res, model := s.runScript(script, vars)
+	if res == resUnknown && s.alt != nil {
+		// portfolio: the other solver often decides what the first one cannot
+		res, model = s.alt.runScript(script, vars)
+		s.AltUsed++
+	}
 	if res != resUnknown {
-		queryCache.Store(script, cacheEntry{res, model})
+		queryCache.Store(key, cacheEntry{res, model})
 	}
 	if d := time.Since(tq); os.Getenv("VX_SLOW") != "" && d > 500*time.Millisecond {
 		os.MkdirAll(os.Getenv("VX_SLOW"), 0o755)
@@ -489,6 +520,15 @@ func (s *solver) oneShot(extra []*Term, vars []*Term) (checkResult, Model) {
 		io.WriteString(s.in, l+"\n")
 	}
 	return res, m
+}
+
+func (s *solver) runScript(script string, vars []*Term) (checkResult, Model) {
+	io.WriteString(s.in, "(reset)\n")
+	if s.kind == SolverCVC5 {
+		io.WriteString(s.in, "(set-option :produce-models true)\n(set-logic ALL)\n")
+	}
+	io.WriteString(s.in, script)
+	return s.checkSatAndModel(vars)
 }
 
 // parseGetValue parses "((v_a 1) (v_b (- 2)) (v_c true))".
